@@ -130,6 +130,7 @@ func runStageFile(o *opts) {
 		used := map[string]bool{}
 		classes := map[string]bool{}
 		mergeKey := false
+		bare := false
 		addArts := func(k int, input bool) []Art {
 			var out []Art
 			for j := 0; j < k; j++ {
@@ -147,20 +148,38 @@ func runStageFile(o *opts) {
 				if !input {
 					a.Skip = r.chance(1, 4)
 				}
+				if bare {
+					a = Art{Path: p} // no attribute at all: `path: {}` or the bare `path:`
+				}
 				out = append(out, a)
 			}
 			sort.Slice(out, func(i, j int) bool { return out[i].Path < out[j].Path })
 			return out
 		}
+		bare = r.chance(1, 4)
 		rec.In = addArts(r.intn(3), true)
 		rec.Out = addArts(r.intn(3), false)
+		if bare {
+			rec.In = append(rec.In, addArts(1+r.intn(2), true)...)
+			rec.Out = append(rec.Out, addArts(1+r.intn(2), false)...)
+			sort.Slice(rec.In, func(i, j int) bool { return rec.In[i].Path < rec.In[j].Path })
+			sort.Slice(rec.Out, func(i, j int) bool { return rec.Out[i].Path < rec.Out[j].Path })
+			s.count("hand-written with attribute-less entries")
+		}
 		stg := mkStageFrom(rec)
 		sp := "s.yaml"
 		file := filepath.Join(tmp, sp)
 		var loaded, reloaded *StageRec
 		var cs, csSame string
 		var csDiff []string
-		if err := stg.ToFile(file); err == nil {
+		var werr error
+		if bare {
+			// a hand-written file, not dud's own serialisation
+			werr = os.WriteFile(file, []byte(stageYAML(rec)), 0o644)
+		} else {
+			werr = stg.ToFile(file)
+		}
+		if werr == nil {
 			if l, err := stage.FromFile(file); err == nil {
 				loaded = recFromStage(&l)
 				cs, _ = l.CalculateChecksum()
